@@ -8,6 +8,7 @@ import (
 	"runtime"
 	"sync"
 	"sync/atomic"
+	"time"
 
 	"github.com/saucelabs/forwarder/conntrack"
 	"github.com/saucelabs/forwarder/internal/verifsim/core"
@@ -26,6 +27,7 @@ type c13ctCase struct {
 	Writes   []int `json:"writes"`
 	PeerSend []int `json:"peer_send"`
 	UseCopy  bool  `json:"use_copy"` // move outbound bytes with io.Copy (ReadFrom path) instead of Write
+	Stall    bool  `json:"stall"`    // tiny link + a peer that does not read for a while + a write deadline: a write moves some bytes and fails
 	WOne     int   `json:"w_one"`
 	WRand    int   `json:"w_rand"`
 }
@@ -37,6 +39,10 @@ func genC13ct(t *tape.Tape, tier string) any {
 	}
 	for i, n := 0, t.Intn(5); i < n; i++ {
 		c.PeerSend = append(c.PeerSend, 1+t.Intn(5000))
+	}
+	if t.Chance(1, 4) {
+		c.Stall = true
+		c.Writes = append(c.Writes, 3000+t.Intn(4000), 1+t.Intn(3000))
 	}
 	c.WOne = t.Pick(6, 2, 1)
 	c.WRand = t.Pick(2, 4, 2) * 2
@@ -90,6 +96,10 @@ func runC13ct(env *core.Env, ci any) {
 	env.Sched.Knobs.WOne, env.Sched.Knobs.WRand = c.WOne, c.WRand
 	n.AddNode("a", ipSUT)
 	n.AddNode("b", ipTarget)
+	if c.Stall {
+		n.DefaultCapacity = 1024
+		env.Sched.Knobs.Horizon = time.Hour
+	}
 	l, err := n.Listen("b", ipTarget+":9")
 	if err != nil {
 		panic(err)
@@ -106,6 +116,7 @@ func runC13ct(env *core.Env, ci any) {
 	var obs *conntrack.Observer
 	var inner *slowCloseConn
 	var peerGot int
+	var moved int // bytes the write calls reported as written
 	env.Sched.Go(func() { // the peer
 		pc, err := l.Accept()
 		if err != nil {
@@ -119,6 +130,9 @@ func runC13ct(env *core.Env, ci any) {
 			}
 			pc.(*simnet.Conn).CloseWrite()
 		}()
+		if c.Stall {
+			time.Sleep(30 * time.Second) // not reading: the sender's link fills up
+		}
 		buf := make([]byte, 4096)
 		for {
 			k, err := pc.Read(buf)
@@ -142,14 +156,26 @@ func runC13ct(env *core.Env, ci any) {
 		go func() { // outbound
 			defer wg.Done()
 			src := &chunkReader{id: 6, sizes: append([]int{}, c.Writes...)}
+			if c.Stall {
+				wrapped.SetWriteDeadline(time.Now().Add(2 * time.Second))
+			}
 			if c.UseCopy {
-				io.Copy(wrapped, src)
+				k, err := io.Copy(wrapped, src)
+				moved += int(k)
+				if err != nil {
+					env.Fault("write-moved-bytes-and-failed")
+				}
 			} else {
 				buf := make([]byte, 8192)
 				for {
 					k, err := src.Read(buf)
 					if k > 0 {
-						wrapped.Write(buf[:k])
+						w, werr := wrapped.Write(buf[:k])
+						moved += w
+						if werr != nil {
+							env.Fault("write-moved-bytes-and-failed")
+							break
+						}
 					}
 					if err != nil {
 						break
@@ -195,8 +221,11 @@ func runC13ct(env *core.Env, ci any) {
 			env.Fail("acct-onclose-count", feature, "%d goroutines closed the tracked connection concurrently (underlying Close yields %d times): OnClose ran %d times, want exactly 1", c.Closers, c.Yields, got)
 		}
 		if c.Track && obs != nil {
+			if c.Stall {
+				wantTx = moved // a write may have failed after moving part of its bytes: those bytes count
+			}
 			if int(obs.Tx()) != wantTx || peerGot != wantTx {
-				env.Fail("acct-bytes", "tx", "tracked connection wrote %d bytes (the peer received %d), observer Tx = %d (copy path: %v)", wantTx, peerGot, obs.Tx(), c.UseCopy)
+				env.Fail("acct-bytes", "tx", "tracked connection wrote %d bytes (the peer received %d), observer Tx = %d (copy path: %v, stalled peer: %v)", wantTx, peerGot, obs.Tx(), c.UseCopy, c.Stall)
 			}
 			if int(obs.Rx()) != gotRx || gotRx != wantRx {
 				env.Fail("acct-bytes", "rx", "peer sent %d bytes, application read %d, observer Rx = %d", wantRx, gotRx, obs.Rx())
